@@ -1,8 +1,9 @@
 """R1 replay for the real-vector bundle, function ball_step: calls the REAL ball_step of the tree under test on the solver's counter-model scale and on a
 seeded family of directions whose norm sweeps 1e-16 .. 1e2, and checks the refuted clause natively (alpha >= 0; ||x0 + alpha*g|| == Delta to 1e-6 relative
 unless ||g|| < 1e-14; alpha == 0 for such g).   argv[1]: JSON {obligation, model, meta};  prints one JSON line."""
-import sys, json
+import sys, json, warnings
 import numpy as np
+warnings.filterwarnings('ignore')
 
 req = json.loads(sys.argv[1])
 name = req['obligation']
@@ -31,8 +32,100 @@ try:
                         if bad:
                             out.update(reproduced=True, inputs={'x0': x0.tolist(), 'g': g.tolist(), 'Delta': Delta}, observed=bad)
                             raise StopIteration
+    fn = name.split('/')[0]
+    if fn in ('dykstra', 'pball', 'ctrsbox_pgd', 'ctrsbox_sfista', 'ctrsbox_linear', 'ctrsbox_geometry', 'Controller.trust_region_step', 'model_value'):
+        # executable form of the bundle's clauses for these functions, on seeded random convex problems (balls, half-spaces, boxes with a common interior point)
+        from dfols import util, trust_region as TR
+        out = {'replayable': True, 'reproduced': False, 'tried': 0}
+        rng = np.random.default_rng(0)
+
+        def sets(n, tight=False):
+            P, member = [], []
+            for _ in range(int(rng.integers(2, 4)) if tight else int(rng.integers(1, 4))):
+                kind = rng.integers(0, 3)
+                if tight:
+                    # a common interior point (the origin) but narrow margins: several sets are active at once and Dykstra converges slowly
+                    if kind == 0:
+                        c = rng.normal(size=n); c *= rng.uniform(0.5, 2.0) / np.linalg.norm(c); r = float(np.linalg.norm(c) + rng.uniform(0.02, 0.3))
+                        P.append(lambda x, c=c, r=r: util.pball(x, c, r)); member.append(lambda x, c=c, r=r: np.linalg.norm(x - c) - r)
+                    elif kind == 1:
+                        a = rng.normal(size=n); a /= np.linalg.norm(a); b = float(rng.uniform(0.02, 0.3))
+                        P.append(lambda x, a=a, b=b: x - max(0.0, float(np.dot(a, x)) - b) * a); member.append(lambda x, a=a, b=b: float(np.dot(a, x)) - b)
+                    else:
+                        lo = -rng.uniform(0.02, 1.0, size=n); hi = rng.uniform(0.02, 1.0, size=n)
+                        P.append(lambda x, lo=lo, hi=hi: util.pbox(x, lo, hi)); member.append(lambda x, lo=lo, hi=hi: float(max(np.max(lo - x), np.max(x - hi))))
+                    continue
+                if kind == 0:
+                    c = rng.normal(size=n) * 0.3; r = float(rng.uniform(1.0, 3.0))
+                    P.append(lambda x, c=c, r=r: util.pball(x, c, r)); member.append(lambda x, c=c, r=r: np.linalg.norm(x - c) - r)
+                elif kind == 1:
+                    a = rng.normal(size=n); a /= np.linalg.norm(a); b = float(rng.uniform(0.3, 1.5))
+                    P.append(lambda x, a=a, b=b: x - max(0.0, float(np.dot(a, x)) - b) * a); member.append(lambda x, a=a, b=b: float(np.dot(a, x)) - b)
+                else:
+                    lo = -np.abs(rng.normal(size=n)) - 0.3; hi = np.abs(rng.normal(size=n)) + 0.3
+                    P.append(lambda x, lo=lo, hi=hi: util.pbox(x, lo, hi)); member.append(lambda x, lo=lo, hi=hi: float(max(np.max(lo - x), np.max(x - hi))))
+            return P, member         # the origin is strictly inside every set
+        for trial in range(3000 if fn in ('dykstra', 'ctrsbox_linear', 'ctrsbox_geometry') else 400):
+            n = int(rng.integers(1, 5))
+            P, member = sets(n, tight=(trial % 2 == 1))
+            bad, inp = None, None
+            if fn == 'dykstra':
+                x0 = rng.normal(size=n) * rng.choice([0.1, 1.0, 5.0])
+                max_iter, tol = int(rng.choice([0, 1, 3, 100])), float(rng.choice([1e-10, 1e-6]))
+                calls = [0]
+                Pc = [(lambda x, f=f: (calls.__setitem__(0, calls[0] + 1), f(x))[1]) for f in P]
+                r = util.dykstra(Pc, x0.copy(), max_iter=max_iter, tol=tol)
+                inside = all(m(x0) <= 0 for m in member)
+                inp = {'n': n, 'x0': x0.tolist(), 'max_iter': max_iter, 'tol': tol, 'sets': len(P), 'trial': trial, 'rng_seed': 0}
+                if calls[0] > max_iter * len(P):
+                    bad = '%d projector calls for max_iter=%d and %d sets (more sweeps than allowed)' % (calls[0], max_iter, len(P))
+                elif inside and np.linalg.norm(r - x0) > 1e-12 * (1 + np.linalg.norm(x0)):
+                    bad = 'a point inside every set was moved by %.3g' % np.linalg.norm(r - x0)
+                elif max_iter >= 1 and member[-1](r) > 1e-9:
+                    bad = 'the result is not an output of the last projector (outside its set by %.3g)' % member[-1](r)
+                elif max_iter == 100 and calls[0] < max_iter * len(P) and max(m(r) for m in member) > np.sqrt(len(P) * tol) * (1 + 1e-6) + 1e-12:
+                    bad = 'stopped by the rule after %d sweeps but %.3g outside a set (> sqrt(p*tol) = %.3g)' % (calls[0] // len(P), max(m(r) for m in member), np.sqrt(len(P) * tol))
+            elif fn == 'pball':
+                x = rng.normal(size=n) * 3; c = rng.normal(size=n); r0 = float(rng.uniform(0.1, 2))
+                r = util.pball(x, c, r0)
+                inp = {'x': x.tolist(), 'c': c.tolist(), 'r': r0}
+                if np.linalg.norm(r - c) > r0 * (1 + 1e-12):
+                    bad = 'result outside the ball'
+                elif np.linalg.norm(x - c) <= r0 and not np.allclose(r, x, rtol=1e-13, atol=1e-15):
+                    bad = 'a point of the ball was moved'
+            else:
+                xopt = np.zeros(n) + rng.normal(size=n) * 0.05
+                xopt = xopt * 0.0 if any(m(xopt) > 0 for m in member) else xopt
+                g = rng.normal(size=n) * rng.choice([1e-3, 1.0, 30.0]); A = rng.normal(size=(n, n)); H = A @ A.T * (rng.choice([0.0, 1.0]) if fn != 'ctrsbox_pgd' else 1.0)
+                delta = float(rng.choice([1e-3, 0.1, 1.0, 10.0]))
+                inp = {'n': n, 'xopt': xopt.tolist(), 'g': g.tolist(), 'H': H.tolist(), 'delta': delta, 'sets': len(P), 'trial': trial, 'rng_seed': 0}
+                lam = 0.3
+                hh = lambda x: lam * float(np.sum(np.abs(x)))
+                prox = lambda x, u: np.sign(x) * np.maximum(np.abs(x) - u * lam, 0)
+                if fn == 'ctrsbox_pgd':
+                    d = TR.ctrsbox_pgd(xopt, g, H, P, delta)[0]
+                elif fn == 'ctrsbox_sfista':
+                    d = TR.ctrsbox_sfista(xopt, g, H, P, delta, hh, lam * np.sqrt(n), prox)[0]
+                elif fn == 'ctrsbox_linear':
+                    d = TR.ctrsbox_linear(xopt, g, P, delta)
+                elif fn == 'ctrsbox_geometry':
+                    d = TR.ctrsbox_geometry(xopt, float(rng.normal()), g, P, delta)
+                else:
+                    d = None
+                if d is not None and np.linalg.norm(d) > delta * (1 + 1e-8):
+                    bad = '||d|| = %.10g > Delta = %g' % (np.linalg.norm(d), delta)
+                if d is None and fn in ('Controller.trust_region_step', 'model_value'):
+                    # zero step has model value h(x): model_value(g, H, 0, xopt, h) == h(xopt)
+                    mv = util.model_value(g, H, np.zeros(n), xopt, hh, (), None)
+                    if abs(mv - hh(xopt)) > 1e-12 * (1 + abs(mv)):
+                        bad = 'model_value of the zero step is %r, h(x) is %r' % (mv, hh(xopt))
+            out['tried'] += 1
+            if bad:
+                out.update(reproduced=True, inputs=inp, observed=bad)
+                raise StopIteration
 except StopIteration:
     pass
 except Exception as ex:
-    out = {'replayable': False, 'reproduced': None, 'error': repr(ex)[:300]}
+    import traceback
+    out = {'replayable': False, 'reproduced': None, 'error': traceback.format_exc()[-400:]}
 print(json.dumps(out))
